@@ -97,7 +97,7 @@ fn kcase_strategy(finite_thresholds: bool, inert: bool, near: bool, with_time: b
             v.sort();
             (Just((sync, algo, init_freq, sources, v, start_time)), ops_strategy(n, max_ops, near, with_time, with_meas))
         })
-        .prop_map(|((sync, algo, init_freq, sources, v, start_time), ops)| tame_periodic(KCase { sync, algo, init_freq, sources, poll_min: v[0], poll_max: v[2], poll_initial: v[1], start_time, ops }))
+        .prop_map(|((sync, algo, init_freq, sources, v, start_time), ops)| tame_periodic(KCase { sync, algo, init_freq, sources, poll_min: v[0], poll_max: v[2], poll_initial: v[1], start_time, ops, closed_loop: false }))
         .boxed()
 }
 
@@ -571,7 +571,12 @@ impl Property for C04 {
 // C06 (+ C10 clock-filter clause)
 
 fn measurement_history() -> BoxedStrategy<KCase> {
-    (sync_strategy(false), algo_strategy(false), prop_oneof![3 => Just(0.0f64), 1 => -1e-3f64..1e-3], sources_strategy(), (0i8..=17, 0i8..=17, 0i8..=17), crate::gens::u64_interesting(), any::<bool>())
+    // per-source measurement pattern: 0 = as generated, 1 = large base + nanosecond jitter, 2 = exactly constant
+    let patterns = prop::collection::vec(
+        (prop_oneof![3 => Just(0u8), 2 => Just(1u8), 1 => Just(2u8)], prop::sample::select(vec![0.0f64, 1700.0, -86_000.0, 0.25, 1.0e6, -3.0e8]), prop::sample::select(vec![0.0f64, 0.0003, 0.02, 0.5, 3.0])),
+        4,
+    );
+    (sync_strategy(false), algo_strategy(false), prop_oneof![3 => Just(0.0f64), 1 => -1e-3f64..1e-3], sources_strategy(), (0i8..=17, 0i8..=17, 0i8..=17), crate::gens::u64_interesting(), (any::<bool>(), patterns))
         .prop_flat_map(|(sync, algo, init_freq, sources, (a, b, c), start_time, meddling_on)| {
             let n = sources.len() as u8;
             let mut v = [a, b, c];
@@ -588,14 +593,31 @@ fn measurement_history() -> BoxedStrategy<KCase> {
             );
             (Just((sync, algo, init_freq, sources, v, start_time, meddling_on)), ops)
         })
-        .prop_map(|((mut sync, mut algo, init_freq, sources, v, start_time, meddling_on), mut ops)| {
+        .prop_map(|((mut sync, mut algo, init_freq, sources, v, start_time, (meddling_on, patterns)), mut ops)| {
             sync.min_agree = 1;
             algo.meddling_off = !meddling_on;
+            for op in &mut ops {
+                if let KOp::Meas { src, offset, delay, .. } = op {
+                    let (mode, base_off, base_delay) = patterns[*src as usize % patterns.len()];
+                    match mode {
+                        1 => {
+                            // far-off clock with nanosecond-level jitter, near-constant round trip
+                            *offset = base_off + offset.clamp(-0.01, 0.01) * 1e-6;
+                            *delay = base_delay + delay.clamp(0.0, 0.05) * 1e-6;
+                        }
+                        2 => {
+                            *offset = base_off;
+                            *delay = base_delay;
+                        }
+                        _ => {}
+                    }
+                }
+            }
             // make every source usable at the start
             let n = sources.len() as u8;
             let mut pre: Vec<KOp> = (0..n).map(|src| KOp::Usable { src, usable: true }).collect();
             pre.append(&mut ops);
-            tame_periodic(KCase { sync, algo, init_freq, sources, poll_min: v[0], poll_max: v[2], poll_initial: v[1], start_time, ops: pre })
+            tame_periodic(KCase { sync, algo, init_freq, sources, poll_min: v[0], poll_max: v[2], poll_initial: v[1], start_time, ops: pre, closed_loop: patterns.iter().any(|p| p.0 != 0) })
         })
         .boxed()
 }
